@@ -14,14 +14,20 @@ theorem HookLogOK.namedRefs {ws : Workspace} {ops : List Op} {n : Nat} (h : Hook
   obtain ⟨nm, ⟨l, hl⟩, _⟩ := h.refTok s loc hm
   exact ⟨nm.toList, l, hl⟩
 
-/-- the text of file `loc.file` under a token range is the token's text -/
+/-- the text of file `loc.file` under a token range (or inside a quoted token) is the name -/
 theorem TokAt.textAt {ws : Workspace} (hws : ws.WF) {loc : Loc} {nm : String} (h : TokAt ws loc nm) :
     textAt ws loc = nm.toList := by
-  obtain ⟨_, t, hd, ht, hs, he, rfl⟩ := h
-  obtain ⟨txt, hsp, h0⟩ := hws.tree_spans loc.file
-  unfold Ide.textAt
-  rw [← hs, ← he]
-  exact hsp.token_text h0 hd ht
+  obtain ⟨_, t, hd, ht, ⟨_, hs, he, rfl⟩ | ⟨hs, he, hq⟩⟩ := h
+  · obtain ⟨txt, hsp, h0⟩ := hws.tree_spans loc.file
+    unfold Ide.textAt
+    rw [← hs, ← he]
+    exact hsp.token_text h0 hd ht
+  · obtain ⟨txt, hsp, h0⟩ := hws.tree_spans loc.file
+    unfold Ide.textAt
+    have := (hsp.token_inner h0 hd ht hq).1
+    have he' : loc.stop = t.stop - 1 := by omega
+    rw [← hs, he']
+    exact this
 
 theorem HookLogOK.textOk {ws : Workspace} (hws : ws.WF) {ops : List Op} {n : Nat} (h : HookLogOK ws ops n) :
     TextOk (textAt ws) ops := by
@@ -36,24 +42,63 @@ theorem HookLogOK.textOk {ws : Workspace} (hws : ws.WF) {ops : List Op} {n : Nat
     · simpa [run] using hS
     · rw [hname]; exact ht.textAt hws
 
-/-- two token ranges of one file are equal or disjoint -/
-theorem TokAt.disjoint {ws : Workspace} (hws : ws.WF) {a b : Loc} {na nb : String} (ha : TokAt ws a na)
-    (hb : TokAt ws b nb) (hf : a.file = b.file) : a = b ∨ a.stop ≤ b.start ∨ b.stop ≤ a.start := by
-  obtain ⟨_, ta, hda, hta, hsa, hea, _⟩ := ha
-  obtain ⟨_, tb, hdb, htb, hsb, heb, _⟩ := hb
-  obtain ⟨txt, hsp, _⟩ := hws.tree_spans a.file
-  rw [← hf] at hdb
-  rcases hsp.tokens_disjoint hda hdb hta htb with ⟨h1, h2⟩ | h | h
-  · left
-    cases a; cases b
-    simp only at hf hsa hea hsb heb
+/-- two name ranges of one file are equal or disjoint: tokens tile the text, an identifier is named as a whole, a
+quoted name by its inside, and an identifier is not quoted (`IdsPlain`) -/
+theorem TokAt.disjoint {ws : Workspace} (hws : ws.WF) (hplain : IdsPlain ws) {a b : Loc} {na nb : String}
+    (ha : TokAt ws a na) (hb : TokAt ws b nb) (hf : a.file = b.file) :
+    a = b ∨ a.stop ≤ b.start ∨ b.stop ≤ a.start := by
+  obtain ⟨_, ta, hda, hta, ha'⟩ := ha
+  obtain ⟨_, tb, hdb, htb, hb'⟩ := hb
+  obtain ⟨txt, hsp, h0⟩ := hws.tree_spans a.file
+  rw [← hf] at hdb hb'
+  have key := hsp.tokens_disjoint hda hdb hta htb
+  have hloc : ∀ {x y : Loc}, x.file = y.file → x.start = y.start → x.stop = y.stop → x = y := by
+    intro x y h1 h2 h3
+    cases x; cases y
+    simp only at h1 h2 h3
     simp only [Loc.mk.injEq]
-    exact ⟨hf, by omega, by omega⟩
-  · right; left; omega
-  · right; right; omega
+    exact ⟨h1, h2, h3⟩
+  -- a quoted token has at least two bytes
+  have hlen : ∀ {t : PTree} {nm : String}, Desc (ws.tree a.file) t → t.isToken = true →
+      t.text.toList = '"' :: nm.toList ++ ['"'] → t.start + 2 ≤ t.stop :=
+    fun hd ht hq => (hsp.token_inner_valid h0 hd ht hq).2
+  -- two tokens with the same non-empty range are the same token
+  have hsame : ta.start = tb.start → ta.stop = tb.stop → ta.start < ta.stop → ta = tb := by
+    intro h1 h2 h3
+    rcases hsp.desc_nested_or_disjoint hda hdb with hd | hd | hd | hd
+    · exact (desc_of_token hta hd).symm
+    · exact desc_of_token htb hd
+    · omega
+    · omega
+  -- an identifier token is not quoted
+  have hnq : ∀ {t : PTree} {nm : String}, IdTok (ws.tree a.file) t → t.text.toList = '"' :: nm.toList ++ ['"'] → False := by
+    intro t nm hid hq
+    exact hplain a.file t hid (by rw [hq]; rfl)
+  rcases ha' with ⟨hka, hsa, hea, _⟩ | ⟨hsa, hea, hqa⟩ <;>
+    rcases hb' with ⟨hkb, hsb, heb, _⟩ | ⟨hsb, heb, hqb⟩
+  · rcases key with ⟨h1, h2⟩ | h | h
+    · exact Or.inl (hloc hf (by omega) (by omega))
+    · right; left; omega
+    · right; right; omega
+  · have := hlen hdb htb hqb
+    rcases key with ⟨h1, h2⟩ | h | h
+    · exact (hnq ((hsame h1 h2 (by omega)) ▸ hka) hqb).elim
+    · right; left; omega
+    · right; right; omega
+  · have := hlen hda hta hqa
+    rcases key with ⟨h1, h2⟩ | h | h
+    · exact (hnq ((hsame h1 h2 (by omega)).symm ▸ hkb) hqa).elim
+    · right; left; omega
+    · right; right; omega
+  · have := hlen hda hta hqa
+    have := hlen hdb htb hqb
+    rcases key with ⟨h1, h2⟩ | h | h
+    · exact Or.inl (hloc hf (by omega) (by omega))
+    · right; left; omega
+    · right; right; omega
 
-theorem HookLogOK.disjointLocs {ws : Workspace} (hws : ws.WF) {ops : List Op} {n : Nat} (h : HookLogOK ws ops n) :
-    DisjointLocs ops := by
+theorem HookLogOK.disjointLocs {ws : Workspace} (hws : ws.WF) (hplain : IdsPlain ws) {ops : List Op} {n : Nat}
+    (h : HookLogOK ws ops n) : DisjointLocs ops := by
   have htok : ∀ e ∈ registrations ops 0, ∃ nm, TokAt ws e.1 nm := by
     intro e he
     rcases registrations_mem ops 0 e he with ⟨name, hm⟩ | hm
@@ -64,7 +109,7 @@ theorem HookLogOK.disjointLocs {ws : Workspace} (hws : ws.WF) {ops : List Op} {n
   intro a ha b hb hf _ _
   obtain ⟨na, hta⟩ := htok a ha
   obtain ⟨nb, htb⟩ := htok b hb
-  exact hta.disjoint hws htb hf
+  exact hta.disjoint hws hplain htb hf
 
 end Ide
 end Tg
